@@ -65,3 +65,9 @@ mk("m-c02-t2k-closure-sender", {"C02": ["C02.W|", "{closure#0}"]}, [(B + "mpc/mp
 mk("m-c02-t2k-z0", {"C02": ["C02.W|"]}, [(B + "mpc/mpc_truncate.rs",
    "        let z0 = x0.add(x1)?;\n        let z1 = x2;", "        let z0 = x0.add(x2.clone())?;\n        let z1 = x1;")],
    "TruncateMPC2K: party 0's 2-out-of-2 share is built from x0 + x2, but party 0 does not hold x2 (still sums to x)")
+mk("m-c02-ot-rb-sender", {"C02": ["C02.W|ObliviousTransfer|roles|sender"]}, [(B + "mpc/utils.rs",
+   "            .add_annotation(NodeAnnotation::Send(helper_id, self.receiver_id))?;", "            .add_annotation(NodeAnnotation::Send(self.sender_id, self.receiver_id))?;")],
+   "OT: r_b is sent by the sender, which does not know the selection bit b")
+mk("m-c02-ot-helper-id", {"C02": ["C02.W|ObliviousTransfer|roles|sender"]}, [(B + "mpc/utils.rs",
+   "        let helper_id = PARTIES as u64 - self.sender_id - self.receiver_id;", "        let helper_id = (self.receiver_id + 1) % PARTIES as u64;")],
+   "OT: the helper is taken to be receiver+1, which is the sender for (sender, receiver) = (1,0), (2,1), (0,2)")
